@@ -7,7 +7,7 @@ RULE = ("two-layer trees (40 % with drop-ins that are symbolic links to differen
         "econf_readConfig with PARSING_DIRS of the same two directories, both callback variants with an accepting callback, "
         "and econf_readDirsHistory on the SAME tree; the oracle checks on the implementation's own outputs that the four "
         "results are identical and that the history lists the consulted files in processing order with their paths; "
-        "merging the history (model, theorem read_dirs_is_history_merge) gives the result; distinct by scenario")
+        "merging the history (model, theorem read_dirs_is_history_merge) gives the result; the harness also merges the history itself with the public econf_mergeFiles, left to right, and shows the result and every member of the history as it is afterwards; distinct by scenario")
 
 def gen(rng, tier):
     n = 1200 if tier == "quick" else 40000
@@ -15,7 +15,7 @@ def gen(rng, tier):
     for _ in range(n):
         name = rng.choice([b"foo", b"bar", b"foo", b"bar", b""]); sfx = rng.choice([b"conf", b".conf", None, b""])
         if name == b"" and not sfx: sfx = b"conf"          # "<dir>/" alone is no file name
-        confdirs = rng.choice([None, None, [b".conf.d", b".d"]])
+        confdirs = rng.choice([None, None, [b".conf.d", b".d"], [b".d", b".conf.d"], [b".d", b".longer-format.conf.d"]])
         d1, d2 = rng.choice([(b"/usr/etc", b"/etc"), (b"/usr/etc", b"/etc"), (b"/usr/etc", None), (None, b"/etc"),
                              (b"/usr:v2/etc", b"/etc"), (b"/usr/etc", b"/e;tc"), (b"/a=b/etc", b"/etc:")])      # any legal directory name
         layers = [d for d in (d1, d2) if d]
@@ -29,7 +29,7 @@ def gen(rng, tier):
         #  named after the project" to econf_readConfig and nothing of the kind to econf_readDirs: not the same parameters)
         if d1 and d2 and name and not any(c in d1 + d2 for c in b":;"):
             body += ["newopts 1 " + enc(b"PARSING_DIRS=" + d1 + b":" + d2), "readconfig 1 - - %s %s x3d x23" % (enc(name), enc(sfx)), "dump 1"]
-        body += ["cb reject", "readdirs 2 " + args, "dump 2", "history " + args, "cb none", "history " + args]
+        body += ["cb reject", "readdirs 2 " + args, "dump 2", "history " + args, "cb none", "history " + args, "histmerge " + args]
         out.append(Scenario(cmds + body, [False] * npre + [True] * len(body), tags=("nulldir" if not (d1 and d2) else "two",)))
     return out
 
